@@ -23,9 +23,15 @@ type FrameSpec struct {
 	allElems bool
 	maps     []string
 	texts    []string
+	// cells: caller-owned scalar cells (a `*string` parameter and the like) that `modifies deref(p)` names
+	cells map[*ssa.Alloc]bool
 }
 
 type Exec struct {
+	entryVariant []string // values of the root function's `decreases` expressions at entry
+	// cellParams: parameters of pointer-to-basic type (`str *string`) are modelled as caller-owned cells outside the heap;
+	// the synthetic key stands for the cell in State.locals
+	cellParams     map[*ssa.Alloc]string
 	eng            *Engine
 	ctx            *Ctx
 	heap           *heapInfo
@@ -462,6 +468,21 @@ func (x *Exec) runRoot(prereg []preregKey) (err error) {
 			a.params[p.Name()] = fl
 			continue
 		}
+		if pt, ok := types.Unalias(p.Type()).(*types.Pointer); ok {
+			if bt, isB := types.Unalias(pt.Elem()).Underlying().(*types.Basic); isB && !isTypeParam(pt.Elem()) && bt.Kind() != types.UnsafePointer {
+				// a cell owned by the caller (the library passes the address of a local string to its recursive printers)
+				cell := &ssa.Alloc{}
+				if x.cellParams == nil {
+					x.cellParams = map[*ssa.Alloc]string{}
+				}
+				x.cellParams[cell] = p.Name()
+				st.locals[cell] = c.freshVal("p_"+p.Name()+".cell", pt.Elem())
+				v := Val{K: KLoc, T: p.Type(), Loc: &Loc{K: LLocal, Local: cell, T: pt.Elem()}}
+				a.vals[p] = v
+				a.params[p.Name()] = v
+				continue
+			}
+		}
 		v := c.freshVal("p_"+p.Name(), p.Type())
 		c.Assume(x.typeInv(v, x.alloc0))
 		a.vals[p] = v
@@ -477,6 +498,11 @@ func (x *Exec) runRoot(prereg []preregKey) (err error) {
 			c.AssumeTagged(fmt.Sprintf("pre:%s", clauseLabel(r.Label, i)), env.evalBool(r.E))
 		}
 		x.frame = x.evalFrame(x.rootSpec, env)
+		// the function-level variant (`decreases e`) at entry: recursive calls must make it smaller (termination, C17)
+		x.entryVariant = nil
+		for _, d := range x.rootSpec.Decreases {
+			x.entryVariant = append(x.entryVariant, c.Define("fvariant", "Int", env.evalInt(d)))
+		}
 		// cover:pre — the precondition is satisfiable (vacuity guard); checked as a must-be-sat query
 		o := x.oblige("cover", "pre", "true", "false", fn.Pos(), nil, "precondition is satisfiable")
 		o.Expected = "sat"
@@ -573,6 +599,11 @@ func (x *Exec) evalFrame(spec *FuncSpec, env *Env) *FrameSpec {
 			case LSlot:
 				addF(l.TreeOwner, l.RootPath, l.Ref, l.IsRoot)
 				addF(l.Owner, l.Path[0], l.NodeRef, not(l.IsRoot))
+			case LLocal:
+				if fr.cells == nil {
+					fr.cells = map[*ssa.Alloc]bool{}
+				}
+				fr.cells[l.Local] = true
 			default:
 				efail("modifies %s: unsupported address", m.Text)
 			}
@@ -1458,6 +1489,13 @@ func (a *Activation) store(ins ssa.Instruction, p Val, v Val, st *State, rc stri
 			x.storeField(st, l.Owner, l.NodeRef, l.Path[0], nv)
 			return
 		case LLocal:
+			if nm, isCell := x.cellParams[l.Local]; isCell && x.frame != nil && x.frame.has {
+				ok := "false"
+				if x.frame.cells[l.Local] {
+					ok = "true"
+				}
+				x.oblige(a.oname("frame"), "cell", rc, ok, pos, nil, "write through the pointer parameter "+nm+" is inside the modifies clause (deref("+nm+"))")
+			}
 			st.locals[l.Local] = v
 			return
 		}
